@@ -15,6 +15,7 @@ PLUGINS = {
     "C06": "harness.plug_query:C06",
     "C07": "harness.plug_query:C07",
     "C08": "harness.plug_query:C08",
+    "C19": "harness.plug_discover:C19",
     "C20": "harness.plug_w3c:C20",
 }
 
